@@ -76,6 +76,14 @@ func commandPattern(n *Node) string {
 			}
 		}
 	}
+	if n.JoinMod != "" {
+		for _, in := range n.Ins {
+			if in.Join {
+				fmt.Fprintf(&b, " -note {i:%s|join:%s|%s}", in.Name, in.Sep, n.JoinMod)
+				break
+			}
+		}
+	}
 	for _, p := range n.Params {
 		fmt.Fprintf(&b, " -p %s={p:%s}", p.Name, p.Name)
 	}
